@@ -263,6 +263,20 @@ def run(chk):
             chk.run("C02.R1", f"{MOD}:NavierStokes2DStatio.equation", {"kind": kind, "keys": [ukey, pkey]}, go,
                     construct=f"NavierStokes2DStatio[{kind}]")
 
+    # a population's own entries are the ones the equation reads, also when the dictionary holds further top-level entries
+    # with the same names next to the per-population sub-dictionaries
+    def go_glv_extra():
+        keys = ["0", "1", "2"]
+        inst = cls("GeneralizedLotkaVolterra").make(Tmax=K("Tmax"), eq_params_heterogeneity=None, key_main="0", keys_other=["1", "2"])
+        ud = {k: Net(f"n{k}", 'PINN', 1, 'ODE', 0) for k in keys}
+        eq = {k: {"carrying_capacity": Pm(f"c{k}"), "growth_rate": Pm(f"r{k}"), "interactions": Pm(f"a{k}", (len(keys),))} for k in keys}
+        eq["growth_rate"], eq["carrying_capacity"] = Pm("r_toplevel"), Pm("c_toplevel")
+        pd = ParamsDict.make(nn_params={k: NNLabel(f"n{k}") for k in keys}, eq_params=eq)
+        r = inst.evaluate(tm(), ud, pd)
+        return compare(r, spec_glv("0", ("1", "2")), (1,), "GeneralizedLotkaVolterra")
+    chk.run("C02.R1", f"{MOD}:GeneralizedLotkaVolterra.equation", {"key_main": "0", "keys_other": ["1", "2"],
+            "extra_top_level_entries": ["growth_rate", "carrying_capacity"]}, go_glv_extra, construct="GeneralizedLotkaVolterra (extra top-level entries)")
+
     # generalized Lotka-Volterra (ODE, PINN only), every key layout with 0..3 other populations
     for nother in ((0, 1, 2, 3) if thorough else (0, 2)):
         keys = [str(i) for i in range(nother + 1)]
